@@ -3,7 +3,7 @@ from mirsym.harness import Check
 from . import scen
 
 QUICK = ["one_irq", "seq2", "if_else_first", "if_else_last", "two_if", "two_if_else", "needs", "needs_first", "step_if", "nested",
-         "empty_branch", "catch_act", "msg_set"]
+         "empty_branch", "catch_act", "msg_set", "tail_if", "branch_tail_if", "par_block", "seq_block"]
 
 
 def main(tier, seed):
